@@ -13,6 +13,7 @@ import Usid.Driver.MainW
 import Usid.Driver.SliceTo
 import Usid.Driver.Reduce
 import Usid.Driver.Csv
+import Usid.Driver.Empty
 /-! Line-protocol driver over the hand-written models: one JSON request per line on stdin,
     one JSON response per line on stdout. -/
 namespace Usid.Driver
@@ -34,7 +35,8 @@ def handlers : List (String × (Json → R Json)) := [
   ("main.write", hMainWrite),
   ("sliceto.run", hSliceTo),
   ("reduce.run", hReduce),
-  ("csv.lines", hCsvLines), ("csv.fs", hCsvFs)
+  ("csv.lines", hCsvLines), ("csv.fs", hCsvFs),
+  ("empty.run", hEmptyRun)
 ]
 
 def respond (tbl : List (String × (Json → R Json))) (line : String) : String :=
